@@ -261,6 +261,18 @@ pub fn decode_stateless<T: Buf>(buf: &mut T, max_size: u64) -> Result<Decoded, D
     })
 }
 
+#[cfg(h3_verif)]
+impl Decoder {
+    /// Verification hook: build a decoder over a configured table.
+    pub fn verif_with_table(table: DynamicTable) -> Decoder {
+        Decoder { table }
+    }
+    /// Verification hook: read-only access to the decoder's table.
+    pub fn verif_table(&self) -> &DynamicTable {
+        &self.table
+    }
+}
+
 #[cfg(test)]
 impl From<DynamicTable> for Decoder {
     fn from(table: DynamicTable) -> Self {
